@@ -335,7 +335,42 @@ func (c *ctx) streamM() error {
 			}
 		}
 	}
+	if c.want("enc") || c.want("dec") {
+		for _, rt := range roots {
+			c.nilMessageCase(rt.l, rt.name)
+		}
+	}
 	return nil
+}
+
+// nilMessageCase (C01, C04): Marshal of a nil *T returns the empty encoding and Unmarshal into a nil
+// *T returns — neither panics (every generated Encode/Decode starts with a nil-receiver guard).
+func (c *ctx) nilMessageCase(l *Loaded, name string) {
+	nilMsg, ok := reflect.Zero(reflect.TypeOf(l.New[name]())).Interface().(picobuf.Message)
+	if !ok {
+		return
+	}
+	c.count("nil_message_cases")
+	c.rep.Evaluations++
+	if c.want("enc") {
+		out, bad := realMarshal(nilMsg)
+		if bad != "" || len(out) != 0 {
+			c.disagree(Disagreement{Kind: "panic", Check: "marshal", Case: caseOf(l, name, map[string]string{"what": "Marshal of a nil *" + name}),
+				Got: map[string]string{"real": bad, "bytes": hexs(out)}})
+		}
+	}
+	if c.want("dec") {
+		v := gen.Message(c.r, l.File, name, c.valOpts(), 0)
+		data, bad0 := realMarshal(l.Reg.ToStruct(name, v))
+		if bad0 != "" {
+			return
+		}
+		_, bad := realUnmarshal(data, nilMsg)
+		if bad != "" {
+			c.disagree(Disagreement{Kind: "panic", Check: "unmarshal", Case: caseOf(l, name, map[string]string{"what": "Unmarshal into a nil *" + name, "input": hexs(data)}),
+				Got: map[string]string{"real": bad}})
+		}
+	}
 }
 
 // hugeNestedCase (thorough tier, about 1.5 GB of memory): a generated message whose SUB-message
